@@ -115,7 +115,7 @@ try:
     old = json.load(open(mpath)) if os.path.exists(mpath) else {}
     old.update(meta)
     meta = old
-    checks = [c for c in (a.checks.split(",") if a.checks else [a.prop]) if c]
+    checks = [c for c in (a.checks.split(",") if a.checks else [a.prop]) if c and c != "none"]
     res = meta.setdefault("checks", {})
     for c in checks:
         outdir = f"/tmp/seedrun/{sid}"
